@@ -10,8 +10,15 @@ sys.path.insert(0, os.path.dirname(os.path.abspath(__file__)))
 import core
 from core import enc_str, enc_bool
 
+from types import SimpleNamespace
+
 from prompt_toolkit.buffer import Buffer, indent, unindent
 from prompt_toolkit.document import Document
+from prompt_toolkit.key_binding.bindings.named_commands import get_by_name
+
+NAMED = {"bdc": "backward-delete-char", "dc": "delete-char", "si": "self-insert", "tc": "transpose-chars",
+         "uw": "uppercase-word", "lw": "downcase-word", "cw": "capitalize-word"}
+CASEF = {"uw": str.upper, "lw": str.lower, "cw": str.title}
 
 ID = "C01"
 DRIVER = "drv_c01"
@@ -67,11 +74,29 @@ def single_ops(n: int):
             ops.append(["ind", a, b, 1])
             ops.append(["unind", a, b, 1])
     ops += [["ind", 0, 2, 2], ["unind", 0, 2, 2], ["ind", 0, 1, 0]]
+    for a in range(-(n + 2), n + 3):
+        ops.append(["bdc", a])
+        ops.append(["dc", a])
+    ops += [["si", "x", -1], ["si", "x", 0], ["si", "x", 1], ["si", "xy", 3], ["tc"]]
+    for w in ("uw", "lw", "cw"):
+        for a in (-1, 0, 1, 2, 3):
+            ops.append([w, a])
     return ops
 
 
 def rand_op(rng, n):
-    k = rng.randrange(14)
+    k = rng.randrange(19)
+    if k >= 14:
+        a = rng.choice([-n - 1, -2, -1, 0, 1, 1, 2, 3, n, n + 4])
+        if k == 14:
+            return ["bdc", a]
+        if k == 15:
+            return ["dc", a]
+        if k == 16:
+            return ["si", rng.choice(["x", "ab", " "]), rng.choice([-1, 0, 1, 2, 5])]
+        if k == 17:
+            return ["tc"]
+        return [rng.choice(["uw", "lw", "cw"]), rng.choice([-1, 0, 1, 1, 2, 4])]
     cnt = rng.choice([0, 1, 1, 2, 3, n, n + 1, n + 5, rng.randrange(0, n + 2)])
     if k == 0:
         data = "".join(rng.choice(RAND_ALPHA) for _ in range(rng.randrange(0, 4)))
@@ -115,6 +140,7 @@ def cases(tier, rng):
             for cur in range(n + 1):
                 # one case per (text, cursor): every op applied from a fresh init
                 yield {"text": text, "cur": cur, "fresh": True, "ops": ops}
+    yield from e2e_cases(rng, 300 if tier == "quick" else 5000)
     nrand = 3000 if tier == "quick" else 60000
     for _ in range(nrand):
         n = rng.choice([0, 1, 2, 3, 5, 8, 13, 40])
@@ -124,12 +150,55 @@ def cases(tier, rng):
         yield {"text": text, "cur": cur, "fresh": False, "ops": ops}
 
 
+E2E_KEY = {"bdc": "\x7f", "dc": "\x1b[3~", "uw": "\x1bu", "lw": "\x1bl", "cw": "\x1bc", "tc": "\x14"}
+
+
+def e2e_keys(op):
+    """the terminal bytes a user types for this command: Esc - / Esc <digit> ... then the key"""
+    k = op[0]
+    if k == "si":
+        arg, key = op[2], op[1]
+    elif k == "tc":
+        arg, key = None, E2E_KEY[k]
+    else:
+        arg, key = op[1], E2E_KEY[k]
+    pre = ""
+    if arg is not None and arg != 1:
+        if arg < 0:
+            pre += "\x1b-"
+            if arg != -1:
+                pre += "".join("\x1b" + d for d in str(-arg))
+        else:
+            pre += "".join("\x1b" + d for d in str(arg))
+    return pre + key
+
+
+def e2e_cases(rng, n):
+    for _ in range(n):
+        ln = rng.choice([0, 1, 2, 3, 5, 8])
+        text = "".join(rng.choice(RAND_ALPHA) for _ in range(ln))
+        cur = rng.choice([0, len(text), rng.randrange(0, len(text) + 1)])
+        k = rng.choice(["bdc", "bdc", "dc", "dc", "uw", "lw", "cw", "tc", "si"])
+        a = rng.choice([-12, -2, -1, 1, 1, 2, 3, 10, len(text) + 2])
+        if k == "si":
+            op = ["si", "x", rng.choice([1, 2, 3, 12])]
+        elif k == "tc":
+            op = ["tc"]
+        elif k in ("uw", "lw", "cw"):
+            op = [k, rng.choice([1, 1, 2, 3])]
+        else:
+            op = [k, a]
+        yield {"text": text, "cur": cur, "fresh": False, "e2e": True, "ops": [op]}
+
+
 def op_line(op):
     k = op[0]
     if k == "ins":
         return f"ins {enc_str(op[1])} {op[2]} {op[3]}"
     if k in ("join", "text"):
         return f"{k} {enc_str(op[1])}"
+    if k == "si":
+        return f"si {enc_str(op[1])} {op[2]}"
     return " ".join(str(x) for x in op)
 
 
@@ -179,6 +248,12 @@ def apply_op(b: Buffer, op):
         indent(b, op[1], op[2], op[3])
     elif k == "unind":
         unindent(b, op[1], op[2], op[3])
+    elif k in NAMED:
+        # the real readline command, called with a minimal event object
+        ev = SimpleNamespace(current_buffer=b, arg=(op[2] if k == "si" else op[1] if len(op) > 1 else 1),
+                             data=(op[1] if k == "si" else ""),
+                             app=SimpleNamespace(output=SimpleNamespace(bell=lambda: None)))
+        get_by_name(NAMED[k]).handler(ev)
     else:
         raise ValueError(op)
     return ""
@@ -188,8 +263,21 @@ def state_line(b: Buffer, ret="") -> str:
     return f"{enc_str(b.text)} {b.cursor_position} {enc_str(ret or '')}"
 
 
+def e2e_run(case):
+    """type the command into a real PromptSession (emacs mode, multi-line) key by key"""
+    from editor import editor
+    with editor(text=case["text"], cursor=case["cur"], multiline=True) as ed:
+        first = state_line(ed.buffer)
+        for op in case["ops"]:
+            ed.feed(e2e_keys(op))
+        return ed, first, state_line(ed.buffer)
+
+
 def impl_lines(case):
     out = []
+    if case.get("e2e"):
+        _, first, last = e2e_run(case)
+        return [first, last]
     if case.get("fresh"):
         for op in case["ops"]:
             b = Buffer(document=Document(case["text"], case["cur"]))
@@ -310,6 +398,43 @@ def check_op(text, cur, op, b: Buffer, ret):
                 else:
                     if not l0.endswith(l1) or l0[: len(l0) - len(l1)].strip() != "":
                         bad("buffer.unindent", "content", "unindent removed non-blank characters")
+    elif k in ("bdc", "dc"):
+        a = op[1]
+        backward = (a >= 0) if k == "bdc" else (a < 0)
+        m = abs(a)
+        if backward:
+            m = min(m, len(before))
+            exp_t, exp_c = before[:len(before) - m] + after, cur - m
+        else:
+            m = min(m, len(after))
+            exp_t, exp_c = before + after[m:], cur
+        if nt != exp_t or nc != exp_c:
+            bad("named_commands." + NAMED[k], "negative argument" if a < 0 else "argument>=0",
+                "Esc <n> Backspace/Delete must remove exactly min(|n|, available) adjacent characters")
+    elif k == "si":
+        d = op[1] * max(0, op[2])
+        if nt != before + d + after or nc != cur + len(d):
+            bad("named_commands.self-insert", "insert", "self-insert")
+    elif k == "tc":
+        if sorted(nt) != sorted(text) or sum(1 for x, y in zip(nt, text) if x != y) > 2:
+            bad("named_commands.transpose-chars", "frame", "transpose-chars changed more than two characters")
+    elif k in CASEF:
+        # only a stretch text[cur:cur+j] may change, and only by the case function, per iteration
+        f = CASEF[k]
+        ok = False
+        if op[1] <= 0:
+            ok = (nt == text and nc == cur)
+        else:
+            # the union of the touched stretches is text[cur:cur+j] for some j; everything else is intact
+            for j in range(0, len(after) + 1):
+                seg = after[:j]
+                if nt.startswith(before) and nt.endswith(after[j:]) and len(nt) >= len(before) + len(after) - j:
+                    mid = nt[len(before): len(nt) - (len(after) - j)]
+                    if mid.lower() == seg.lower() or mid == f(seg):
+                        ok = True
+                        break
+        if not ok:
+            bad("named_commands." + NAMED[k], "frame", "case transform changed characters outside the words it addresses")
     elif k == "cur":
         if nt != text or nc != max(0, min(op[1], len(text))):
             bad("Buffer.cursor_position", "clamp", "cursor setter")
@@ -321,6 +446,12 @@ def check_op(text, cur, op, b: Buffer, ret):
 
 def oracle(case):
     v = []
+    if case.get("e2e"):
+        ed, _, _ = e2e_run(case)
+        v = check_op(case["text"], case["cur"], case["ops"][0], ed.buffer, "")
+        for x in v:
+            x["signature"] = "end-to-end " + x["signature"]
+        return v
     if case.get("fresh"):
         for op in case["ops"]:
             b = Buffer(document=Document(case["text"], case["cur"]))
